@@ -1133,6 +1133,14 @@ class Interp:
         text = line if isinstance(line, str) else line[:100].decode("latin-1")
         self.session_gone(sess, ms, r, text)
         self.check_prompt(sess, r, text)
+        if self.compare and r.status == "NO" and "pending expunge" in (r.text or "").lower():
+            # a command by message number is refused "because EXPUNGEs are pending" only when some are: here the
+            # session's view IS the message list (every cell known on both sides), so nothing can be pending
+            box_ = ms.selected
+            if box_ is not None and not box_.uncertain and sess.view is not None and len(sess.view) == len(box_.msgs) and all(c is not None for c in sess.view) \
+                    and all(m.uid is not None for m in box_.msgs) and list(sess.view) == [m.uid for m in box_.msgs]:
+                self.C("c04_refusal_has_reason")
+                self.V("C04", "refused_without_pending_expunge", session=sess.sid, cmd=text[:60], reply=r.brief())
         if sess.bye or sess.lost:
             ms.dead = True
             ms.selected = None
@@ -1306,6 +1314,7 @@ class Interp:
         how = op.get("how", "+")
         flags = op.get("flags", ["\\Seen"])
         item = {"+": "+FLAGS", "-": "-FLAGS", "=": "FLAGS"}[how] + (".SILENT" if op.get("silent") else "")
+        self._noparen = bool(op.get("noparen")) and len(flags) >= 1
         if box is None:
             r = await self.run_cmd(sess, ms, f"{'UID ' if op.get('uid') else ''}STORE 1 {item} ({' '.join(flags)})")
             self.C("c06_state_refusal")
@@ -1326,7 +1335,9 @@ class Interp:
             # copies made later (even back into this mailbox) carry the keyword under UIDs above every UID known now
             floor = max((c for c in (sess.view or []) if c is not None), default=0)
             self.tags[tag] = {"uvv": ms.sel_uvv, "asked": asked, "floor": floor, "session": sess.sid, "cmd": f"{'UID ' if op.get('uid') else ''}STORE {txt} {item}"}
-        r = await self.run_cmd(sess, ms, f"{'UID ' if op.get('uid') else ''}STORE {txt} {item} ({' '.join(flags)})")
+        # (store-att-flags = ... (flag-list / (flag *(SP flag))): the parentheses are optional)
+        fl_txt = " ".join(flags) if self._noparen else "(" + " ".join(flags) + ")"
+        r = await self.run_cmd(sess, ms, f"{'UID ' if op.get('uid') else ''}STORE {txt} {item} {fl_txt}")
         if r.status is None or ms.dead:
             return
         if ("*" in txt or valid is False) and list(sess.view or []) != vlen:
@@ -1681,6 +1692,12 @@ class Interp:
         box = ms.selected
         key = op.get("key", "ALL")
         r = await self.run_cmd(sess, ms, f"{'UID ' if op.get('uid') else ''}SEARCH {key}")
+        if r.status is not None and box is not None and not r.ok and key.upper().split()[0] in ("KEYWORD", "UNKEYWORD") and key.isascii() and not ms.maybe_pending \
+                and "pending" not in (r.text or "").lower():
+            # C04: a search by flag agrees with FETCH FLAGS - for a keyword no message can carry that is "no message"
+            # (KEYWORD) or "every message" (UNKEYWORD), not a refusal or a dropped connection
+            self.C("c04_search_answered")
+            self.V("C04", "search_refused", key=key, reply=r.brief())
         if r.status is None or box is None or not r.ok or not self.compare or box.uncertain:
             return
         got = []
